@@ -777,4 +777,6 @@ def obligations(tier, build):
                                                          "keywords only in the concrete witness replays"},
                                   leverage="numeric payloads, Range / String bounds, protocol outcomes",
                                   query_timeout_ms=30000, max_paths=5000, fast_fp=True))
+    from props import _c01_array
+    obs.extend(_c01_array.obligations(tier))
     return obs
